@@ -29,6 +29,13 @@ type Obl struct {
 }
 
 type Ctx struct {
+	// caller-lock inference (lockset.go)
+	callIndex    map[*ssa.Function][]ssa.Instruction
+	usedAsValue  map[*ssa.Function]bool
+	invokedNames map[string]bool
+	inferMemo    map[string]lockState
+	inferDepth   int
+
 	Prop    string
 	Tier    string
 	Seed    int
